@@ -2,7 +2,7 @@
    Statements only (copied from the lemma libraries); every proof is a bare
    `exact`; see the cited files in coq/proofs for the proofs. *)
 From Coq Require Import List NArith ZArith Bool Arith Sorting.Sorted Sorting.Permutation.
-From D2P Require Import Str Err Xml TableTypes Tables Fmt Bullets Merge Collector Walk ShapeFacts TokFacts FrameFacts MergeFacts Predicates SeqFacts LineageFacts BulletsFacts GridFacts LineageFacts GridWalk BlocksSpec MarkerFacts ReplaceFacts StandIns PyVal Source SourceBase SourceMerge.
+From D2P Require Import Str Err Xml TableTypes Tables Fmt Bullets Merge Collector Walk ShapeFacts TokFacts FrameFacts MergeFacts Predicates SeqFacts LineageFacts BulletsFacts GridFacts LineageFacts GridWalk BlocksSpec MarkerFacts ReplaceFacts StandIns PyVal Source SourceBase SourceMerge PyHeap SourceHeap SourceHeapRuns SourceCaret SourceRuns.
 Import ListNotations.
 
 (* refinement to the declarative spec: walking a paragraph whose content is inline (any nesting of runs, wrappers, unknown elements, hyperlinks, pictures, forms, equations; no nested paragraph, table cell, note or comment marker) appends exactly ONE record after all earlier ones, pointing at that element, with its style, whose tokens are: queued note label, list marker, then the contributions of its children in document order - nothing else, nothing twice, nothing from elsewhere; the open-paragraph stack and comment ranges are untouched *)
@@ -305,3 +305,107 @@ Theorem C02_source_has_content :
   exists v, S_has_content fuel (enc_el t) = Ok v /\ py_truth v = has_content t.
 Proof. exact src_has_content. Qed.
 Print Assumptions C02_source_has_content.
+
+(* SOURCE TIE (heap embedding of the run methods of DepthCollector): add_text_into_open_run appends the (escaped) text to the LAST run of the open paragraph - creating a run when there is none - and changes nothing else: every other run, paragraph and list cell that existed reads the same (frame_runs) *)
+Theorem C02_source_add_text :
+  forall (epf : pv -> pv -> hm pv) (eps : pv -> hm pv),
+  forall fuel h self pa ra rs fmt item,
+    rd_open h self = Some (pa, ra, rs) -> rd_fmt h self = Some fmt ->
+    exists h', S_H_add_text_into_open_run epf eps fuel self (VStr item) h = HOk VNone h'
+               /\ rd_open h' self
+                  = Some (pa, ra, upd_last (fun r : rv => (fst r, snd r ++ render (py_truth fmt) (map TTxt item)))
+                                           (ensure_rv rs))
+               /\ frame_runs h h' ra.
+Proof. exact src_add_text. Qed.
+Print Assumptions C02_source_add_text.
+
+(* SOURCE TIE: add_code_into_open_run appends verbatim *)
+Theorem C02_source_add_code :
+  forall (epf : pv -> pv -> hm pv) (eps : pv -> hm pv),
+  forall fuel h self pa ra rs item,
+    rd_open h self = Some (pa, ra, rs) ->
+    exists h', S_H_add_code_into_open_run epf eps fuel self (VStr item) h = HOk VNone h'
+               /\ rd_open h' self
+                  = Some (pa, ra, upd_last (fun r : rv => (fst r, snd r ++ item)) (ensure_rv rs))
+               /\ frame_runs h h' ra.
+Proof. exact src_add_code. Qed.
+Print Assumptions C02_source_add_code.
+
+(* SOURCE TIE: commence_run() appends one empty unstyled run to the open paragraph and changes nothing else *)
+Theorem C02_source_commence_run :
+  forall (epf erf : pv -> pv -> hm pv) (eps : pv -> hm pv),
+  forall fuel h self pa ra rs,
+    rd_open h self = Some (pa, ra, rs) ->
+    exists h', S_H_commence_run epf erf eps fuel self VNone h = HOk VNone h'
+               /\ rd_open h' self = Some (pa, ra, rs ++ [([], [])])
+               /\ frame_runs h h' ra.
+Proof. exact src_commence_run_none. Qed.
+Print Assumptions C02_source_commence_run.
+
+(* SOURCE TIE: conclude_run() likewise *)
+Theorem C02_source_conclude_run :
+  forall (epf erf : pv -> pv -> hm pv) (eps : pv -> hm pv),
+  forall fuel h self pa ra rs,
+    rd_open h self = Some (pa, ra, rs) ->
+    exists h', S_H_conclude_run epf erf eps fuel self h = HOk VNone h'
+               /\ rd_open h' self = Some (pa, ra, rs ++ [([], [])])
+               /\ frame_runs h h' ra.
+Proof. exact src_conclude_run. Qed.
+Print Assumptions C02_source_conclude_run.
+
+(* SOURCE TIE: insert_text_as_new_run puts the item in an unstyled run of its own and reopens a run in the style that was open; nothing else changes *)
+Theorem C02_source_insert_text_as_new_run :
+  forall (epf : pv -> pv -> hm pv) (eps : pv -> hm pv),
+  forall fuel h self pa ra rs item,
+    rd_open h self = Some (pa, ra, rs) ->
+    exists h', S_H_insert_text_as_new_run epf eps fuel self (VStr item) h = HOk VNone h'
+               /\ rd_open h' self
+                  = Some (pa, ra, ensure_rv rs ++ [([], item); (last_style (ensure_rv rs), [])])
+               /\ frame_runs h h' ra.
+Proof. exact src_insert_text_as_new_run. Qed.
+Print Assumptions C02_source_insert_text_as_new_run.
+
+(* SOURCE TIE: queue_run_for_next_paragraph appends one unstyled run to the queued runs *)
+Theorem C02_source_queue_run :
+  forall h self qa qs text,
+    rd_queued h self = Some (qa, qs) ->
+    exists h', S_H_queue_run_for_next_paragraph self (VStr text) h = HOk VNone h'
+               /\ rd_queued h' self = Some (qa, qs ++ [([], text)])
+               /\ frame_runs h h' qa.
+Proof. exact src_queue_run. Qed.
+Print Assumptions C02_source_queue_run.
+
+(* bridge: the model's add_toks (tokens, rendered on demand) seen through run_view IS the operation proved of the source (strings, escaped on entry) *)
+Theorem C02_model_add_toks_view :
+  forall b rs ts,
+  map (run_view b)
+      (upd_last (fun r => {| r_style := r_style r; r_toks := r_toks r ++ ts |}) (ensure_run rs))
+  = upd_last (fun r : rv => (fst r, snd r ++ render b ts)) (ensure_rv (map (run_view b) rs)).
+Proof. exact model_add_toks_view. Qed.
+Print Assumptions C02_model_add_toks_view.
+
+(* bridge: the model's insert_text_as_new_run seen through run_view *)
+Theorem C02_model_insert_view :
+  forall b rs ts,
+  map (run_view b)
+      (let rs' := ensure_run rs in
+       let st := match last_opt rs' with Some r => r_style r | None => [] end in
+       rs' ++ [{| r_style := []; r_toks := ts |}; {| r_style := st; r_toks := [] |}])
+  = ensure_rv (map (run_view b) rs)
+    ++ [([], render b ts); (last_style (ensure_rv (map (run_view b) rs)), [])].
+Proof. exact model_insert_view. Qed.
+Print Assumptions C02_model_insert_view.
+
+(* bridge: the model's commence_run seen through run_view *)
+Theorem C02_model_commence_run_view :
+  forall b rs style,
+  map (run_view b) (rs ++ [{| r_style := style; r_toks := [] |}]) = map (run_view b) rs ++ [(style, [])].
+Proof. exact model_commence_run_view. Qed.
+Print Assumptions C02_model_commence_run_view.
+
+(* bridge: the model's queue_run_for_next_paragraph seen through run_view *)
+Theorem C02_model_queue_view :
+  forall b qs ts,
+  map (run_view b) (qs ++ [{| r_style := []; r_toks := ts |}]) = map (run_view b) qs ++ [([], render b ts)].
+Proof. exact model_queue_view. Qed.
+Print Assumptions C02_model_queue_view.
